@@ -16,7 +16,7 @@ RULE = ('one case = a seeded history (10..40 operations: upload, streamed upload
         '"a/../x", via a symlink; seeded directory enumeration order), the real S3Compatible adapter on FakeS3 and the real B2 adapter on '
         'FakeB2 (server page sizes 1..5 or large; payloads around the stream chunk size 1..64); every return value is compared with a dict '
         'model and the adapters with each other; during overwrites of the local backend a concurrent simulated reader must see the old or '
-        'the new bytes, never a mixture or absence. distinct_nontrivial = distinct event-log digests')
+        'the new bytes, never a mixture or absence, and two overlapping uploads of one name must leave one of the two payloads, whole. distinct_nontrivial = distinct event-log digests')
 COMPONENTS = {
     'real': ['replicat.backends.local.Local', 'replicat.backends.s3c.S3Compatible', 'replicat.backends.b2.B2', 'replicat.utils.requires_auth', 'backoff', 'httpx client stack above the transport'],
     'stub': ['file-system syscalls (pass-through seam with seeded scandir order)', 'FakeS3 / FakeB2 services (written from the public API docs)', 'clocks', 'thread scheduling'],
@@ -24,7 +24,7 @@ COMPONENTS = {
 }
 ASSUMPTIONS = ['no name is a directory prefix of another; no ".", ".." or empty segments', 'the fakes encode my reading of the S3 / B2 documentation']
 PROBES = ['list_multi_page_s3', 'list_multi_page_b2', 'download_missing', 'overwrite', 'delete_missing', 'spelling_relative', 'spelling_dot',
-          'concurrent_reader', 'name_nonascii', 'name_special', 'name_tmp_suffix']
+          'concurrent_reader', 'concurrent_writer', 'name_nonascii', 'name_special', 'name_tmp_suffix']
 TIERS = {'quick': {'budget_s': 60, 'batch': 10}, 'thorough': {'budget_s': 900, 'batch': 20}}
 
 ALPH = ['abcdefghijklmnopqrstuvwxyz0123456789', 'AB-_.~', ' !$&\'()*+,;=:@', '%?#[]{}|^`"<>\\', 'äßñ日本한😀']
@@ -85,9 +85,9 @@ def gen_case(seed, tier):
         if chunk == 128000 and rng.random() < 0.15:
             size = rng.choice([127999, 128000, 128001, 256001])      # around the shipped stream chunk size
         if k < 0.25:
-            ops.append({'op': 'upload', 'name': name, 'size': size, 'reader': rng.random() < 0.3})
+            ops.append({'op': 'upload', 'name': name, 'size': size, 'reader': rng.random() < 0.3, 'rival': rng.random() < 0.25})
         elif k < 0.4:
-            ops.append({'op': 'upload_stream', 'name': name, 'size': size, 'chunk': chunk, 'reader': rng.random() < 0.3})
+            ops.append({'op': 'upload_stream', 'name': name, 'size': size, 'chunk': chunk, 'reader': rng.random() < 0.3, 'rival': rng.random() < 0.25})
         elif k < 0.5:
             ops.append({'op': 'delete', 'name': name})
         elif k < 0.6:
@@ -217,7 +217,29 @@ def run_case(case):
                                 CTX.s.block_until(lambda: reader['task'].state == core.DONE, what='reader')
                         elif kind == 'upload_stream':
                             stream = io.BytesIO(data)
+                            rival = None
+                            if op.get('rival') and bname == 'local':
+                                rival = _start_rival(b.b, op['name'], payload_rng.randbytes(max(1, op['size'] // 2 + 3)), op['chunk'], res_holder)
+                                probes['concurrent_writer'] = 1
                             out = ('ok', await b.call('upload_stream', op['name'], stream, len(data), op['chunk']))
+                            if rival is not None:
+                                # this upload was acknowledged: from now on the object is a whole payload, whatever the rival is doing
+                                mid = bytes(await b.call('download', op['name']))
+                                if mid not in (data, rival['data']) and not res_holder.get('reader_violation'):
+                                    res_holder['reader_violation'] = {
+                                        'cls': 'concurrent-uploads-mixed', 'sig': {'when': 'after-ack'},
+                                        'msg': f'upload of {op["name"]!r} ({len(data)} bytes) was acknowledged while a rival upload ({len(rival["data"])} bytes) '
+                                               f'was in progress; the object then held {len(mid)} bytes that are neither payload'}
+                                CTX.s.block_until(lambda: rival['task'].state == core.DONE, what='rival')
+                                # two complete uploads of one name raced: the object is one of the two payloads, whole
+                                got = bytes(await b.call('download', op['name']))
+                                if got not in (data, rival['data']):
+                                    res_holder['reader_violation'] = {
+                                        'cls': 'concurrent-uploads-mixed', 'sig': {},
+                                        'msg': f'two uploads of {op["name"]!r} overlapped (payloads of {len(data)} and {len(rival["data"])} bytes); '
+                                               f'the stored object has {len(got)} bytes and is neither of them'}
+                                elif got == rival['data']:
+                                    data = rival['data']
                         elif kind == 'delete':
                             out = ('ok', await b.call('delete', op['name']))
                         elif kind == 'exists':
@@ -299,6 +321,21 @@ def run_case(case):
         os.chdir(cwd)
         CTX.fs = None
         world.remove_scratch(d)
+
+
+def _start_rival(backend, name, data, chunk, holder):
+    """A second simulated thread uploads another payload under the same name at the same time."""
+    s = CTX.s
+    ctl = {'data': data}
+
+    def body():
+        try:
+            backend.upload_stream(name, io.BytesIO(data), len(data), chunk)
+        except OSError as e:
+            # the loser of a race may legitimately fail; a corrupted object may not result
+            ctl['error'] = e
+    ctl['task'] = s.spawn(body, 'rival-writer')
+    return ctl
 
 
 def _stop_readers(holder):
